@@ -9,7 +9,7 @@ from props.rot_common import *
 
 PID = 'C14'
 MANIFEST = dict(
-    text='Machine-checked invariant proof (Coq, all theorems closed under the global context) over an executable model of RotatingSink (abstract directory, created-files deque, rename chain, back-of-deque deletion, directory scan on restart, three naming schemes, libc as an oracle). For every op sequence from a constructor on a directory without files named stem.*.ext (unrelated files present): the rename chain never overwrites a file; the retained files read oldest to newest are the written sequence minus a prefix formed by the files deleted at the back of the deque, nothing missing with overwrite off (rot_order, rot_whole); every file is within the limit or holds the single statement written into an empty file, the live file being exempt once rotation has stopped (rot_limit); at most max_backup_files rotated files, disk = deque, no rename/remove after the stop (rot_count, rot_stops); names carry the age (Index: all runs; Date/DateAndTime: one run with non-decreasing timestamps and monotone strftime); unrelated files untouched. Restarts: Index scheme in mode a (scan rebuilds exactly the deque, rot_append_restart) and mode w with remove_old_files, any number of them; Date scheme: only what the scan recovers (partial); DateAndTime restarts not proved. Premise bytes written = log_statement.size() is false for RotatingJsonFileSink (rot_json_refuted, D10). Tied to the real RotatingFileSink/RotatingJsonFileSink by differential runs in a scratch directory (0 disagreements) plus a direct property monitor; open findings D10, C14-decoy-index, C14-datetime-restart, C14-date-restart-backwards.',
+    text='Machine-checked invariant proof (Coq, all theorems closed under the global context) over an executable model of RotatingSink (abstract directory, created-files deque, rename chain, back-of-deque deletion, directory scan on restart, three naming schemes, libc as an oracle). For every op sequence from a constructor on a directory without files named stem.*.ext (unrelated files present): the rename chain never overwrites a file; the retained files read oldest to newest are the written sequence minus a prefix formed by the files deleted at the back of the deque, nothing missing with overwrite off (rot_order, rot_whole); every file is within the limit or holds the single statement written into an empty file, the live file being exempt once rotation has stopped (rot_limit); at most max_backup_files rotated files, disk = deque, no rename/remove after the stop (rot_count, rot_stops); names carry the age (Index: all runs; Date/DateAndTime: one run with non-decreasing timestamps and monotone strftime); unrelated files untouched. Restarts: Index scheme in mode a (scan rebuilds exactly the deque, rot_append_restart) and mode w with remove_old_files, any number of them; Date scheme: only what the scan recovers (partial); DateAndTime restarts not proved. Premise bytes written = log_statement.size() is false for RotatingJsonFileSink (rot_json_refuted, D10). Tied to the real RotatingFileSink/RotatingJsonFileSink by differential runs in a scratch directory (0 disagreements) plus a direct property monitor; open findings D10, C14-datetime-restart, C14-date-restart-backwards; C14-decoy-index (a name component such as 5x parsed as index 5) was repaired (fix commit 50e20c2) and the model now requires a pure digit string.',
     design='5 C14', technique='Coq invariant proof over an executable model + extracted-model/implementation differential correspondence in a scratch directory')
 TRUSTED = [
     'Coq 8.16.1 kernel (coqc, vm_compute for refutation / non-vacuity examples; no native_compute)',
